@@ -175,6 +175,14 @@ func (dm *DMap) syncPutOnCluster(e *env, nt storage.Entry) error {
 	// Quorum based replication.
 	var successful int
 
+	// The primary copy first: an entry that the primary owner rejects (key or
+	// entry too large) must not reach the replicas and must not be acknowledged.
+	err := dm.putEntryOnFragment(e, nt)
+	if err != nil {
+		return err
+	}
+	successful++
+
 	encodedEntry := nt.Encode()
 
 	owners := dm.s.backup.PartitionOwnersByHKey(e.hkey)
@@ -190,14 +198,6 @@ func (dm *DMap) syncPutOnCluster(e *env, nt storage.Entry) error {
 			}
 			continue
 		}
-		successful++
-	}
-	err := dm.putEntryOnFragment(e, nt)
-	if err != nil {
-		if dm.s.log.V(3).Ok() {
-			dm.s.log.V(3).Printf("[ERROR] Failed to call put command on %s for DMap: %s: %v", dm.s.rt.This(), e.dmap, err)
-		}
-	} else {
 		successful++
 	}
 	if successful >= dm.s.config.WriteQuorum {
